@@ -20,7 +20,7 @@ ANCHORS = ['FactoredInference._setup', 'FactoredInference._marginal_loss', 'Fact
            'FactoredInference.fix_measurements']
 DECIDING = ['loss_value', 'gradient_vs_joint', 'central_difference', 'spelling_equivalence', 'lipschitz_bound']
 ASSUMPTIONS = ['joint-level oracle limited to domains of <= 256 cells',
-               'loss rtol 1e-9, gradient rtol 1e-8, lambda_max <= L*(1+1e-7) (eigsh with its default tolerance)',
+               'loss rtol 1e-9 and gradient rtol 1e-8, each plus a first-order conditioning allowance 1e-10 * |Q||x|/sigma (the candidate marginals come from belief propagation, the reference from the brute-force joint); lambda_max <= L*(1+1e-7)',
                'L1 derivative test judged only when no residual is within 1e-3 of a kink',
                'Lipschitz part uses projections with >= 2 cells (scipy eigsh refuses 1x1 operators)']
 PLAN = {
@@ -108,6 +108,12 @@ def run_case(case, ctx):
     Gj = np.zeros(int(np.prod(shape)))
     Pf = P.reshape(-1)
     min_resid = np.inf
+    # The candidate marginals handed to the engine come from belief_propagation, the reference from the brute-force
+    # joint: two float evaluations of the same distribution that agree to REL (C01 observes ~1e-12).  The induced
+    # difference in loss / gradient is bounded by first-order propagation through |Q| and 1/sigma:
+    REL = 1e-10
+    loss_cond = 0.0
+    grad_cond = np.zeros(int(np.prod(shape)))
     for Q, y, s, proj in measure.plain_tuples(meas):
         idx = oracles.cell_index_map(attrs, shape, proj)
         x = np.bincount(idx, weights=Pf, minlength=int(idx.max()) + 1 if idx.size else 1)
@@ -123,9 +129,15 @@ def run_case(case, ctx):
             gq = r / s
         gcell = gq if Q is None else Q.T @ gq
         Gj += gcell[idx]
+        ax = np.abs(x) if Q is None else np.abs(Q) @ np.abs(x)          # |Q||x|: size of the perturbation of Qx
+        loss_cond += float(np.sum((np.abs(r) if metric == 'L2' else 1.0) * ax / s))
+        if metric == 'L2':
+            gc = (ax / s ** 2) if Q is None else np.abs(Q).T @ (ax / s ** 2)
+            grad_cond += gc[idx]
     scale = max(1.0, abs(ref))
     ctx.stat('loss_rel_dev', abs(loss - ref) / scale)
-    ctx.check(abs(loss - ref) <= 1e-9 * scale, 'loss_value', 'loss',
+    ctx.stat('loss_conditioning_allowance_over_scale', REL * loss_cond / scale)
+    ctx.check(abs(loss - ref) <= 1e-9 * scale + REL * loss_cond, 'loss_value', 'loss',
               'engine loss %r, loss recomputed from the joint (each measurement once) %r' % (loss, ref))
 
     # (ii) gradient: expanded onto the joint it must be the joint-level gradient
@@ -141,7 +153,7 @@ def run_case(case, ctx):
         ctx.stat('gradient_rel_dev', dev)
         judge = metric == 'L2' or min_resid > 1e-9
         if judge:
-            ctx.check(dev <= 1e-8, 'gradient_vs_joint', 'gradient',
+            ctx.check(dev <= 1e-8 + REL * float(grad_cond.max()) / gs, 'gradient_vs_joint', 'gradient',
                       'engine gradient expanded to the joint deviates from sum_m M^T Q^T r / sigma by %.3e (relative)' % dev)
         # central differences of the engine's own loss along random (inconsistent) directions
         for _ in range(2):
